@@ -2,7 +2,7 @@
    Nothing but statements, closed by [exact], each followed by Print Assumptions. *)
 From Coq Require Import ZArith QArith List Bool.
 From RV Require Import Base.Wire Base.Text Lang.PyAst Lang.PySem Gen.SafeCasts Lang.ConstEval Lang.ConstEnv
-  Proofs.ConstEvalP Proofs.ConstEnvP Proofs.ConstEnvFreshP.
+  Proofs.ConstEvalP Proofs.ConstEnvP Proofs.ConstEnvFreshP Proofs.ConstEnvSplitP.
 Import ListNotations.
 Open Scope Z_scope.
 
@@ -145,3 +145,47 @@ Theorem C03_witnesses_outside_guard :
   is_fresh w_shared = false /\ is_fresh w_stale = false /\ is_fresh w_loop = false /\ is_fresh w_remove = false.
 Proof. exact witnesses_outside_guard. Qed.
 Print Assumptions C03_witnesses_outside_guard.
+
+(* module level: the first assignment of a name declares a C++ global, whose initialiser runs BEFORE setup().  The
+   transpiler hoists the right-hand side into the initialiser only when it is constant AND name-free
+   (_handle_assignment_ast: `if not is_const or expr_uses_names: default value + run-time assignment`).
+   [sketch_outputs]: static initialisers first, in declaration order, then the residual body of setup().
+   Inside the guard [split_ok] = is_fresh and: no variable named like a builtin the evaluator interprets, every hoisted
+   expression inside in_guard, no hoisted name written by an earlier statement (a name used earlier as a for-loop
+   variable) - the sketch produces on every control-flow path the observations (run-time values of variables,
+   folded lengths, flash patterns, glyph rows) of the source program under the reference Python semantics *)
+Theorem C03_global_split_partial : forall p orc out,
+  split_ok p = true -> python_outputs p orc = Some out -> sketch_outputs p orc = Some out.
+Proof. exact global_split_sound. Qed.
+Print Assumptions C03_global_split_partial.
+
+(* what is hoisted has, in EVERY run-time environment (hence at every program point, and before setup()), the value
+   the evaluator found *)
+Theorem C03_static_initialiser_closed : forall p te st gs body f x e rho,
+  ttop p [] [] [] = Some (te, st, gs, body, f, true) -> In (x, e) (statics gs) -> unshadowed rho ->
+  exists v, eval_const [] e = CVal v /\ peval rho e = Ok v.
+Proof. exact static_initialiser_closed. Qed.
+Print Assumptions C03_static_initialiser_closed.
+
+Theorem C03_split_ok_is_fresh : forall p, split_ok p = true -> is_fresh p = true.
+Proof. exact split_ok_fresh. Qed.
+Print Assumptions C03_split_ok_is_fresh.
+
+(* the name-free test is forced: hoisting every constant right-hand side (base = 200; base = 350; period = base * 2)
+   initialises period from the INITIAL value of base *)
+Theorem C03_hoist_through_names_refuted :
+  sketch_outputs_gen false w_retune [] = Some [VInt 400] /\ python_outputs w_retune [] = Some [VInt 700] /\
+  sketch_outputs w_retune [] = Some [VInt 700] /\ split_ok w_retune = true.
+Proof. exact hoist_through_names_refuted. Qed.
+Print Assumptions C03_hoist_through_names_refuted.
+
+Example C03_global_split_nonvacuous :
+  split_ok w_split = true /\
+  python_outputs w_split [1%nat] = Some [VInt 706; VInt 350; VInt 2] /\
+  python_outputs w_split [0%nat] = Some [VInt 705; VInt 350; VInt 2] /\
+  match ttop w_split [] [] [] with
+  | Some (_, _, gs, body, _, _) =>
+      map fst (statics gs) = [n_base; n_s] /\ length body = 8%nat /\ length gs = 4%nat
+  | None => False end.
+Proof. exact split_nonvacuous. Qed.
+Print Assumptions C03_global_split_nonvacuous.
